@@ -122,9 +122,11 @@ func (f *Interface) consumeInsidePacket(pkt tio.Packet, fwPacket *firewall.Parse
 
 func (f *Interface) sendInsideEncrypt(hostinfo *HostInfo, ci *ConnectionState, seg, scratch, nb []byte) []byte {
 	if noiseutil.EncryptLockNeeded {
+		verifLockPoint("sendInside:writeLock", &ci.writeLock)
 		ci.writeLock.Lock()
 	}
 	c := ci.messageCounter.Add(1)
+	verifYield("sendInside:reserved")
 
 	out := header.Encode(scratch, header.Version, header.Message, 0, hostinfo.remoteIndexId, c)
 
@@ -448,9 +450,11 @@ func (f *Interface) prepareSendVia(via *HostInfo,
 ) ([]byte, error) {
 	if noiseutil.EncryptLockNeeded {
 		// NOTE: for goboring AESGCMTLS we need to lock because of the nonce check
+		verifLockPoint("sendVia:writeLock", &via.ConnectionState.writeLock)
 		via.ConnectionState.writeLock.Lock()
 	}
 	c, ok := via.ConnectionState.NextMessageCounter()
+	verifYield("sendVia:reserved")
 	if !ok {
 		if noiseutil.EncryptLockNeeded {
 			via.ConnectionState.writeLock.Unlock()
@@ -540,9 +544,11 @@ func (f *Interface) sendNoMetrics(t header.MessageType, st header.MessageSubType
 
 	if noiseutil.EncryptLockNeeded {
 		// NOTE: for goboring AESGCMTLS we need to lock because of the nonce check
+		verifLockPoint("send:writeLock", &ci.writeLock)
 		ci.writeLock.Lock()
 	}
 	c, ok := ci.NextMessageCounter()
+	verifYield("send:reserved")
 	if !ok {
 		if noiseutil.EncryptLockNeeded {
 			ci.writeLock.Unlock()
